@@ -1,7 +1,13 @@
 /-
 Model of `acmed/src/http.rs` (`is_nonce`, `new_nonce`, `update_nonce`, `check_status`, `get_client`,
 `get`, `post`), of `AcmeError::{from, is_recoverable}` (`acme_proto/structs/error.rs`) and of the
-`pool_object!` macro (`acme_proto/http.rs:7-20`).  Import-free.
+`pool_object!` macro (`acme_proto/http.rs:7-20`).  Imports only the generated constants.
+
+Redirections (commit 1dd071b): the client is built with `redirect(Policy::none())`, so ONE `.send()`
+is ONE request.  `get` follows a 3xx answer with a `Location` itself, in a loop of at most
+`Gen.DEFAULT_HTTP_MAX_REDIRECT` iterations, each passing the limiter (`getLoop`); `post` does not
+look at redirections at all: a 3xx answer is a non-2xx answer.  The behaviour before that commit
+(the HTTP library follows redirections INSIDE one `.send()`) is `Model/HttpRedirOld.lean`.
 
 Everything the outside world decides is an input:
 * the server: a *script* of `Answer`s, one consumed per transmission (GET and POST alike).  An
@@ -18,6 +24,8 @@ of `new_nonce` propagated).  `NonceMode.cloneOld` is the code before the repair 
 .unwrap_or_default()`, one fetch before the loop, its error ignored) and is kept so that the old
 defect stays expressible.
 -/
+import AcmedVerif.Gen.Consts
+
 namespace AcmedVerif.Http
 
 /-! ## ACME error types (`error.rs:10-37`) -/
@@ -117,13 +125,29 @@ inductive Body
   | unreadable
   deriving DecidableEq, Repr, Inhabited
 
+/-- The redirection an answer asks for, as `get` (`http.rs:190-200`) reads it — and as the HTTP
+library's own policy read it before commit 1dd071b (`Model/HttpRedirOld.lean`).
+* `no`: the status is not 3xx, or it is 3xx and there is no `Location` header (`get` then falls
+  through to `check_status`);
+* `to url keep`: 3xx with a `Location` that is visible ASCII and resolves against the URL that was
+  answered (`response.url().join(..)`) to `url`.  `keep`: status 307 / 308 (the library re-sent the
+  same method and body; for 301 / 302 / 303 it turned a POST into a GET without body);
+* `bad`: 3xx with a `Location` that `header_to_string` or `Url::join` refuse. -/
+inductive Redir
+  | no
+  | to (url : Nat) (keep : Bool)
+  | bad
+  deriving DecidableEq, Repr, Inhabited
+
 /-- What the server (or the network) did with ONE transmission.  `delivered = false`: `send()`
-returned an error; the other fields are then meaningless and ignored. -/
+returned an error; the other fields are then meaningless and ignored.  (A 3xx answer has
+`ok2xx = false`; `get` looks at `redir` first, as the code does.) -/
 structure Answer where
   delivered : Bool
   ok2xx : Bool
   nonce : NonceHdr
   body : Body
+  redir : Redir
   deriving DecidableEq, Repr, Inhabited
 
 /-- The nonce this answer hands to the client, if any: delivered and a valid `Replay-Nonce`. -/
@@ -170,6 +194,8 @@ inductive Err
                            --   (the Rust value is `e` itself; the wrapper only records where)
   | pollDecode             -- `pool_object!`: `response.json::<T>()?`
   | pollExhausted          -- `pool_object!`: "… pooling failed on …"
+  | badLocation            -- `get`: `header_to_string(location)?` / `join(..)?` (`http.rs:192-197`)
+  | tooManyRedirects       -- `get`: "too many redirections" (`http.rs:206`)
   deriving DecidableEq, Repr, Inhabited
 
 inductive Result
@@ -233,9 +259,12 @@ def updateNonce (cur : Option Nat) : NonceHdr → Option (Option Nat)
 
 /-! ## `get`, `new_nonce` -/
 
-/-- `get` (`http.rs:176-189`): client, limiter, send, `update_nonce`, `check_status`, body. -/
-def get (st : State) (clientOk : Bool) (url : Nat) : Out :=
-  if clientOk then
+/-- The loop of `get` (`http.rs:183-205`) with `fuel` iterations left: limiter, ONE request,
+`update_nonce`, then — for a redirection with a `Location` — the next iteration with the resolved
+URL, else `check_status` and the body.  Every iteration passes the limiter. -/
+def getLoop : Nat → Nat → State → Out
+  | 0, _, st => ⟨.err .tooManyRedirects, st, []⟩
+  | fuel + 1, url, st =>
     match st.script with
     | [] => ⟨.stuck, st, [.admit, .getSend url]⟩
     | a :: rest =>
@@ -246,12 +275,22 @@ def get (st : State) (clientOk : Bool) (url : Nat) : Out :=
         | none => ⟨.err .invalidNonce, st1, evs⟩
         | some nn =>
           let st2 : State := { st1 with nonce := nn }
-          if a.ok2xx then
-            match a.body with
-            | .unreadable => ⟨.err .bodyRead, st2, evs⟩
-            | b => ⟨.ok b, st2, evs⟩
-          else ⟨.err .status, st2, evs⟩
+          match a.redir with
+          | .to u _ =>
+            let o := getLoop fuel u st2
+            ⟨o.res, o.st, evs ++ o.evs⟩
+          | .bad => ⟨.err .badLocation, st2, evs⟩
+          | .no =>
+            if a.ok2xx then
+              match a.body with
+              | .unreadable => ⟨.err .bodyRead, st2, evs⟩
+              | b => ⟨.ok b, st2, evs⟩
+            else ⟨.err .status, st2, evs⟩
       else ⟨.err .transport, st1, evs⟩
+
+/-- `get` (`http.rs:178-207`): client, then the loop with `DEFAULT_HTTP_MAX_REDIRECT` iterations. -/
+def get (st : State) (clientOk : Bool) (url : Nat) : Out :=
+  if clientOk then getLoop Gen.DEFAULT_HTTP_MAX_REDIRECT url st
   else ⟨.err .clientBuild, st, []⟩
 
 /-- `new_nonce` (`http.rs:109-114`): passes the limiter, then `get`, which passes it again. -/
@@ -287,8 +326,11 @@ def pickNonce (mode : NonceMode) (st : State) : Option (Option Nat × State) :=
     | some n => some (some n, { st with nonce := none })
   | .cloneOld => some (st.nonce, st)
 
-/-- What `post` does with a delivered or undelivered answer `a` (`http.rs:217-233`), given the
-stored nonce at that moment: outcome and new stored nonce. -/
+/-- What `post` does with a delivered or undelivered answer `a` (`http.rs:232-249`), given the
+stored nonce at that moment: outcome and new stored nonce.  `a.redir` is not looked at: the client
+does not follow redirections (`Policy::none()`), and to `post` a 3xx answer is a non-2xx answer
+like any other (error, or a retry with a NEW nonce to the SAME url if its body is a recoverable
+problem document).  Nothing is ever sent to the `Location`. -/
 def judge (cur : Option Nat) (a : Answer) : RoundOut × Option Nat :=
   if a.delivered then
     match updateNonce cur a.nonce with
